@@ -19,6 +19,7 @@ import (
 	"fmt"
 	"io"
 	"math/rand"
+	"net"
 	"strconv"
 	"strings"
 	"sync/atomic"
@@ -44,7 +45,7 @@ type Prog struct {
 	Read  string `json:"read"` // none | k | all | past-eof | swallow | inner-first (the first child, as through xmlstream.Inner)
 	K     int    `json:"k,omitempty"`
 	Write string `json:"write"` // none | element | split | partial | refused-end | refused-comment | refused-nameless | echo
-	Ret   string `json:"ret"`   // nil | read-err | custom | write-err | eof (io.EOF whatever was read)
+	Ret   string `json:"ret"`   // nil | read-err | custom | write-err | eof (io.EOF whatever was read) | wrap-eof (an error wrapping io.EOF)
 }
 
 // Scenario is a complete case.
@@ -64,11 +65,53 @@ type Scenario struct {
 	// (synchronously at the start of invocation CloseAt, when the serve loop does
 	// not hold the output lock yet) | goroutine (on its own goroutine started at
 	// the start of invocation CloseAt: it lands whenever the output lock is free).
-	AppClose string   `json:"app_close,omitempty"`
-	CloseAt  int      `json:"close_at,omitempty"`
-	Items    []string `json:"items"`            // raw pieces of the peer's input, in order; the input ends with EOF
-	Chunks   []int    `json:"chunks,omitempty"` // read sizes handed to the library, cycled; empty = unlimited
-	Programs []Prog   `json:"programs"`         // invocation i runs Programs[i mod len]
+	// ReadFault: the transport's Read fails with an error of the given shape
+	// once At bytes of the input (after the stream header) have been delivered.
+	ReadFault *ReadFault `json:"read_fault,omitempty"`
+	AppClose  string     `json:"app_close,omitempty"`
+	CloseAt   int        `json:"close_at,omitempty"`
+	Items     []string   `json:"items"`            // raw pieces of the peer's input, in order; the input ends with EOF
+	Chunks    []int      `json:"chunks,omitempty"` // read sizes handed to the library, cycled; empty = unlimited
+	Programs  []Prog     `json:"programs"`         // invocation i runs Programs[i mod len]
+}
+
+// ReadFault describes a failing transport read.
+type ReadFault struct {
+	At    int    `json:"at"`
+	Shape string `json:"shape"` // see readFaultErr
+}
+
+var readFaultShapes = []string{"wrapped-eof", "operror-eof", "custom-is-eof", "custom-unwrap-eof", "unexpected-eof", "wrapped-unexpected-eof", "plain", "bare-eof"}
+
+type isEOFError struct{}
+
+func (isEOFError) Error() string        { return "c08: transport: connection ended" }
+func (isEOFError) Is(target error) bool { return target == io.EOF }
+
+type unwrapEOFError struct{ msg string }
+
+func (e unwrapEOFError) Error() string { return e.msg }
+func (unwrapEOFError) Unwrap() error   { return io.EOF }
+
+// readFaultErr builds the transport error of a shape.
+func readFaultErr(shape string) error {
+	switch shape {
+	case "wrapped-eof":
+		return fmt.Errorf("c08: read tcp: %w", io.EOF)
+	case "operror-eof":
+		return &net.OpError{Op: "read", Net: "tcp", Err: io.EOF}
+	case "custom-is-eof":
+		return isEOFError{}
+	case "custom-unwrap-eof":
+		return unwrapEOFError{msg: "c08: tls: connection reset"}
+	case "unexpected-eof":
+		return io.ErrUnexpectedEOF
+	case "wrapped-unexpected-eof":
+		return fmt.Errorf("c08: read: %w", io.ErrUnexpectedEOF)
+	case "bare-eof":
+		return io.EOF
+	}
+	return errors.New("c08: transport read failed")
 }
 
 // ---------------------------------------------------------------------------
@@ -384,6 +427,9 @@ func genProg(r *rand.Rand) Prog {
 			p.Read = "all"
 		}
 	}
+	if r.Intn(25) == 0 {
+		p.Ret = "wrap-eof"
+	}
 	if r.Intn(80) == 0 {
 		// a write that xml.Encoder refuses; the program swallows or returns the error
 		p.Write = pick(r, "refused-end", "refused-comment", "refused-nameless", "echo")
@@ -536,6 +582,23 @@ func generate(r *rand.Rand) Scenario {
 		sc.AppClose = pick(r, "before", "in-handler", "in-handler", "goroutine")
 		sc.CloseAt = r.Intn(3)
 	}
+	if sc.Addr == "" && r.Intn(6) == 0 {
+		// a failing transport read: at a boundary between the pieces of the input
+		// (between elements, after a keep-alive, before the terminator) or anywhere
+		total := 0
+		var bounds []int
+		for _, it := range sc.Items {
+			total += len(it)
+			bounds = append(bounds, total)
+		}
+		at := 0
+		if len(bounds) > 0 && r.Intn(2) == 0 {
+			at = bounds[r.Intn(len(bounds))]
+		} else if total > 0 {
+			at = r.Intn(total + 1)
+		}
+		sc.ReadFault = &ReadFault{At: at, Shape: readFaultShapes[r.Intn(len(readFaultShapes))]}
+	}
 	return sc
 }
 
@@ -607,7 +670,12 @@ func parseRef(header, input string) *reference {
 					for dd > 0 {
 						tk, e := d.Token()
 						if e != nil {
-							break
+							// the stream error itself is cut short or broken
+							var se *xml.SyntaxError
+							if e == io.EOF || errors.As(e, &se) && strings.Contains(se.Msg, "unexpected EOF") {
+								return finish("eof")
+							}
+							return finish("malformed")
 						}
 						switch x := tk.(type) {
 						case xml.StartElement:
@@ -854,6 +922,8 @@ func (rc *recorder) HandleXMPP(rw xmlstream.TokenReadEncoder, start *xml.StartEl
 		inv.Ret = errCustom
 	case "eof":
 		inv.Ret = io.EOF
+	case "wrap-eof":
+		inv.Ret = fmt.Errorf("c08: handler: decoding payload: %w", io.EOF)
 	}
 	return inv.Ret
 }
@@ -1008,7 +1078,11 @@ func Run(c *core.Case, sc Scenario) {
 			c.Count("bare_address_changed_before_serve", 1)
 		}
 	}
-	ref := parseRef(sess.Header(o), input)
+	refInput := input
+	if sc.ReadFault != nil && sc.ReadFault.At < len(input) {
+		refInput = input[:sc.ReadFault.At] // what the library can have read
+	}
+	ref := parseRef(sess.Header(o), refInput)
 	rec := &recorder{sc: sc, s: ev.S, closedAt: -1}
 	if sc.AppClose == "before" {
 		rec.appClose(0, false)
@@ -1313,6 +1387,12 @@ func Run(c *core.Case, sc Scenario) {
 		// (Not judged when that element is the one holding a nested terminator:
 		// what follows it is then the business of the nested-construct rule.)
 		lastWanted := stopped == expected-1 && (ref.Term == "closing" || ref.Nested)
+		if stopErr != io.EOF && errors.Is(stopErr, io.EOF) {
+			c.Count("handler_returned_error_wrapping_eof", 1)
+			if serveErr == nil && len(rec.invs) == stopped+1 && stopped < expected && !lastWanted && ref.Term != "eof" {
+				c.Violate("elem:outcome:handler-wrapped-eof", "the handler returned %q for element %d of %d (terminator: %s); Serve returned nil right away as if the peer had closed its stream", stopErr, stopped, expected, termKey(ref))
+			}
+		}
 		if stopErr == io.EOF && serveErr == nil && len(rec.invs) == stopped+1 && stopped < expected && !lastWanted && ref.Term != "eof" {
 			c.Violate("elem:outcome:handler-eof", "the handler returned io.EOF for element %d of %d (terminator: %s); Serve returned nil right away without the peer's closing tag having been read", stopped, expected, termKey(ref))
 		}
@@ -1341,6 +1421,27 @@ func Run(c *core.Case, sc Scenario) {
 		var se stream.Error
 		if !errors.As(serveErr, &se) || se.Err != ref.Cond {
 			c.Violate("elem:outcome:stream-error", "the peer sent the stream error %q, Serve returned %v (%T)", ref.Cond, serveErr, serveErr)
+		}
+	case (ref.Term == "eof" || ref.Term == "malformed") && sc.ReadFault != nil && sc.ReadFault.Shape != "bare-eof":
+		// the transport failed (not a clean end of the byte stream): whatever
+		// the error wraps, that is not the peer's closing tag
+		ferr := readFaultErr(sc.ReadFault.Shape)
+		c.Count("read_fault_reached", 1)
+		c.Count("read_fault_"+sc.ReadFault.Shape, 1)
+		switch {
+		case ref.Nested:
+			c.Count("read_fault_inside_element", 1)
+		case strings.TrimRight(refInput, " \t\r\n") != refInput:
+			c.Count("read_fault_after_keepalive", 1)
+		default:
+			c.Count("read_fault_between_elements", 1)
+		}
+		if serveErr == nil {
+			key := "elem:outcome:read-error"
+			if errors.Is(ferr, io.EOF) {
+				key = "elem:outcome:read-error-wrapping-eof"
+			}
+			c.Violate(key, "the transport's Read failed with %T %q after %d input bytes (nested=%v) and Serve returned nil as if the peer had closed its stream", ferr, ferr, sc.ReadFault.At, ref.Nested)
 		}
 	case ref.Term == "eof":
 		c.Count("outcome_eof_not_demanded", 1)
@@ -1454,6 +1555,9 @@ func Prop() *core.Prop {
 			"invocations", "stanzas_dispatched", "non_stanzas_dispatched", "from_blanked_expected", "non_stanza_with_own_from",
 			"elements_read_to_eof", "elements_partly_read", "elements_not_read", "reads_after_eof", "reads_after_error",
 			"nested_construct_surfaced_as_read_error", "chunked_streams",
+			"read_fault_reached", "read_fault_wrapped-eof", "read_fault_operror-eof", "read_fault_custom-is-eof", "read_fault_custom-unwrap-eof",
+			"read_fault_unexpected-eof", "read_fault_wrapped-unexpected-eof", "read_fault_plain",
+			"read_fault_inside_element", "read_fault_after_keepalive", "read_fault_between_elements", "handler_returned_error_wrapping_eof",
 			"outcome_stream_error_with_foreign_child", "outcome_stream_error_with_several_texts",
 			"handler_returned_bare_eof", "bare_eof_with_element_partly_unread", "session_carried_on_after_handler_eof",
 			"app_close_before", "app_close_in-handler", "app_close_goroutine", "invocations_after_app_close",
